@@ -965,9 +965,17 @@ func (c *Checked) checkGroupArg(i int, who string, cons Consumer, p LeafParam, a
 	}
 	if p.Obj >= 0 {
 		var others []LeafParam
+		// the other fields of the same parameter object, including the fields
+		// of objects nested in it (a nested object is a field of this object)
 		for oi, q := range lp {
-			if oi != ai && q.Obj == p.Obj && !q.Soft {
-				others = append(others, q)
+			if oi == ai || q.Soft {
+				continue
+			}
+			for _, o := range q.ObjPath {
+				if o == p.Obj {
+					others = append(others, q)
+					break
+				}
 			}
 		}
 		cl := m.MustClosure(cons, others)
